@@ -147,6 +147,8 @@ def run_one(choices, params):
         with pair.Knobs(c):
             Svc = make_service(rpyc, counts)
             ca, cb, ledger = pair.connect_pair(k, rpyc.VoidService(), Svc(), compress=(bool(c.draw(2)), bool(c.draw(2))))
+            import itertools
+            ca._seqcounter = itertools.count(c.pick((0, 0, 2 ** 16 - 6, 2 ** 31 - 4, 2 ** 32 - 5, 2 ** 63 - 3)))     # knob: position in the number space
             spy_dispatch(cb, info["escaped"], "B")
             spy_dispatch(ca, info["escaped"], "A")
             srv = sim.spawn(cb.serve_all, _name="B.serve_all")
